@@ -392,6 +392,10 @@ Definition eff_pre {A} (sizeN : A -> N) (ty : limit_type) (prefetch limit_ : N) 
     usize::MAX, or no value of [limit()] on the input exceeds usize::MAX *)
 Definition no_sat {A} (sizeN : A -> N) (ty : limit_type) (prefetch limit_ : N) (input : list A) : Prop :=
   (N.max limit_ 1 * N.max prefetch 1 < UMAX \/ eff_X sizeN ty input <= UMAX)%N.
+(** the limit itself is not reached by saturation: it is below usize::MAX, or no value of
+    [limit()] on the input exceeds usize::MAX *)
+Definition lim_exact {A} (sizeN : A -> N) (ty : limit_type) (limit_ : N) (input : list A) : Prop :=
+  (limit_ < UMAX \/ eff_X sizeN ty input <= UMAX)%N.
 (** the value of the limit clause over machine integers: item count, or count x largest size *)
 Definition limitN {A} (sizeN : A -> N) (ty : limit_type) (b : list A) : N :=
   match ty with
@@ -437,10 +441,12 @@ Definition smallb (v : val) : bool :=
   small_nb (v_nth 2 v) && small_nb (v_nth 3 v)
   && match v_nth 6 v with L l => forallb small_nb l | _ => false end.
 
-(** the correspondence clause: BOTH profiles of the machine model of the repaired code emit the
-    implementation's batch sequence, batch for batch, order inside batches included *)
+(** the correspondence clause: the machine model of the repaired code emits the implementation's
+    batch sequence, batch for batch, order inside batches included.  Both profiles of the model are
+    evaluated on the EXTREME domain; on the small domain (where the unary model runs too) one
+    profile is: the two are equal for every input ([machine_profiles_agree]) *)
 Definition machine_agree (v i : val) : bool :=
-  seeded_ok (run_M06s Checked true v) i && seeded_ok (run_M06s Wrapping true v) i.
+  seeded_ok (run_M06s Checked true v) i && (smallb v || seeded_ok (run_M06s Wrapping true v) i).
 
 (** ** the executable statement over machine integers: the clauses of [check_C06] with the sizes,
     the limit and the products in [N] *)
